@@ -84,6 +84,7 @@ func checkC04(c *Ctx) {
 	checkWatcherAPI(c)
 	checkSessionTable(c)
 	checkSessionFlows(c)
+	checkClientRequestFlows(c) // the resume version reaches the server: each Watch call encodes its own options into a fresh request
 	checkControllerTable(c) // re-read of watcher.events() per iteration, update+distribute of every watch event
 	c.floor("T-TABLE(_watcher.run)", 9, "8 iteration paths, closure, initial state")
 	c.floor("T-TABLE(_watchSession.run)", 9, "8 distinct cases + prelude")
